@@ -245,6 +245,16 @@ ADDENDA5 = {
     "C18": "Every structure class carrying an arity from a constructor parameter is constructed with an int, 'default' or None; transpile / transpile_ast / transpile_single add nothing to the code but producer results, constants and joins of them.",
     "C19": "The input-handling statements of execute_vyxal outside every try apply only operations that cannot raise on strings (known finding: the f flag opens the first input line as a host file there).",
 }
+ADDENDA5B = {
+    "C03": "Multi-character texts the lexer itself mentions (string constants, one sample match of every regular expression) are payload like any other inside each literal kind.",
+    "C04": "Literal forms with an opener (also a digraph head plus one character) and a different closer are discovered by probing and fall under the closer-optional law; the closed-vs-truncated sweep also runs programs built around the multi-character constants of lexer and parser and around every digraph head followed by an opener.",
+    "C05": "The NUMBER arm is interpreted on every real literal over {0, 7, .} up to four characters (and long ones): the string constant it emits, read as a decimal, equals the literal; program text handed to an inexact constructor anywhere else in the transpiler is reported too; a NUMBER token is a contiguous piece of the program text (probed around the lexer's own multi-character constants and regex samples).",
+    "C06": "The round-trip alphabet includes every character the lexer and the STRING arm of the transpiler mention in short constants.",
+    "C07": "In the (num, num) arm of every other element function `//`, divmod and `/` between two unlifted operands are reported; vyxalify(a / b) needs a lifted operand.",
+    "C15": "int(a / b) with both operands Python ints (rebound from int(...)) is a float quotient; an index computed as a difference and guarded only from above wraps around when negative.",
+}
+for _k, _v in ADDENDA5B.items():
+    ADDENDA5[_k] = (ADDENDA5.get(_k, "") + " " + _v).strip()
 for _k, _v in ADDENDA5.items():
     ADDENDA4B[_k] = (ADDENDA4B.get(_k, "") + " " + _v).strip()
 for _k, _v in ADDENDA4B.items():
